@@ -236,7 +236,7 @@ func (cw *ccWorld) msRandBegin(c *Ctx, ch string, ids []string, wellFormed bool)
 			a.group = b.tok + "_X_" + []string{"G1", "G2"}[rng.Intn(2)]
 		}
 		if i > 0 && rng.Intn(3) == 0 {
-			a.group = b.assets[0].group // the same group listed twice
+			a.group = b.assets[i-1].group // the same group listed twice in a row
 		}
 		if !wellFormed && rng.Intn(20) == 0 {
 			a.group = other + "_G1" // an asset labelled with another token
@@ -246,6 +246,22 @@ func (cw *ccWorld) msRandBegin(c *Ctx, ch string, ids []string, wellFormed bool)
 		}
 		if rng.Intn(12) == 0 {
 			a.amt = 450 // the 2nd or 3rd asset is often the under-funded one
+		}
+		if rng.Intn(7) == 0 {
+			// exactly what the user holds of that group right now: the entry takes the balance to zero (a group that is
+			// listed again after it finds nothing left)
+			u := cw.users[b.u]
+			grp := a.group[strings.LastIndex(a.group, "_")+1:]
+			var cur *big.Int
+			if b.tok == own {
+				cur = cw.w.GetBalance(ch, balance.BalanceTypeToken, u.AddrString(), grp)
+			} else {
+				cur = cw.w.GetBalance(ch, balance.BalanceTypeAllowed, u.AddrString(), a.group)
+			}
+			if cur.Sign() > 0 && cur.IsInt64() {
+				a.amt = cur.Int64()
+				c.Count("asset_of_exactly_the_balance")
+			}
 		}
 		if !wellFormed && rng.Intn(40) == 0 {
 			a.amt = -3
